@@ -113,7 +113,10 @@ CHECKS = {
             H("sched", "sch_timed_plain", 2, 3),
         ],
     },
-    "C13": {"harnesses": [H("streams", "strm_seq", args=[a]) for a in range(12)] + [H("streams", "strm_sources")]},
+    "C13": {"harnesses": [H("streams", "strm_seq", args=[a]) for a in range(12)] + [H("streams", "strm_sources"),
+                          H("strmrace", "strm_race_stopimm", 3, 4, args=[0]), H("strmrace", "strm_race_stopimm", 3, 4, args=[1]),
+                          H("strmrace", "strm_race_takeuntil", 3, 4, args=[0]), H("strmrace", "strm_race_takeuntil", 3, 4, args=[1]),
+                          H("strmrace", "strm_race_takeuntil", 3, 4, args=[2])]},
     "C17": {
         "harnesses": [
             H("bulk", "bulk_findif", args=[0], **{"hang-timeout": 30}),
